@@ -35,3 +35,4 @@ run 4a08f54 C03 replays/regress/C03-D17-huge-values-hang.json
 run 4a08f54 C02 replays/regress/C02-D17-huge-values-hang.json
 run 19de2f0 C13 replays/regress/C13-D16-painter-fit-escapes.json
 run ca8e8fb C05 replays/regress/C05-D19-image-one-ulp-outside.json
+run 3a40a21 C06 replays/regress/C06-D20-refinement-rewrites-stored-trial.json
